@@ -109,7 +109,10 @@ func main() {
 		if len(blocks) > 1 {
 			crashing += "\n\n" + blocks[1]
 		}
-		if strings.Contains(crashing, "github.com/krotik/ecal/") {
+		// encoding a value handed out by krotik/ecal is the property's own observation point (C16: the command result
+		// must be JSON-encodable): a fatal concurrent map access there is a map the code still writes to
+		handedOut := id == "C16" && strings.HasPrefix(first, "fatal error: concurrent map") && strings.Contains(crashing, "encoding/json") && strings.Contains(crashing, "dbgEnv")
+		if strings.Contains(crashing, "github.com/krotik/ecal/") || handedOut {
 			sig := id + " process crash: " + first
 			path := ev.AmendCrash(id, tier, ev.SeedFromEnv(), sig, crash)
 			fmt.Printf("VIOLATION property=%s replay=%s\n  signature: %s\n  the process running krotik/ecal died (%s) with frames of github.com/krotik/ecal on the stack\n", id, path, sig, first)
